@@ -21,11 +21,13 @@ def assert_valid_comodo(ds):
 
 
 def get_all_axes(ds):
-    axes = set()
+    # an insertion-ordered set (the keys of a dict), so that the order of the axes
+    # does not depend on the hash seed
+    axes = {}
     for d in ds.dims:
         if "axis" in ds[d].attrs:
-            axes.add(ds[d].attrs["axis"])
-    return axes
+            axes[ds[d].attrs["axis"]] = None
+    return axes.keys()
 
 
 def get_axis_coords(ds, axis_name):
